@@ -286,6 +286,9 @@ var namePool = []string{
 	"foo", "Foo", "FOO.", "foo.", "bar.lan", "Bar.LAN.", "BAR.lan", "localhost", "LocalHost", "localhost.localdomain",
 	"localhost.localdomain.", "x", "X", "printer", "Printer.local", "printer.local.", "nas", "NAS", "a.b.c", "A.b.C.", "*", ".", "..",
 	"foo.local", "zz", "Zz", "host-1", "HOST-1",
+	// names with bytes above 0x7f: DNS names fold case in ASCII only (RFC 4343), so these match in exactly the spellings
+	// that differ in ASCII letters - and must not get lost
+	"B\u00dcRO-PC", "b\u00dcro-pc.lan", "b\u00fcro-pc", "caf\xe9", "CAF\xe9.local", "\u0130stanbul", "\u212aelvin.lan",
 }
 var wsPool = []string{" ", " ", " ", "\t", "  ", " \t", "\t\t", "\v", "\f", " \r "}
 
@@ -552,7 +555,9 @@ func genDNSMasq(r *Rng, c *Ctx) string {
 			b.WriteString("duid 00:01:00:01:aa:bb")
 			c.Stat("line:duid")
 		default:
-			b.WriteString("# " + r.pick(namePool) + " 1 2 3 4 5")
+			// (the second field of such a line lands in the MAC column, which the code folds with strings.ToLower on
+			// both the table and the lookup side: keep it ASCII, the model folds ASCII only)
+			b.WriteString("# " + r.pick(namePool[:28]) + " 1 2 3 4 5")
 			c.Stat("line:hash")
 		}
 		if i == nl-1 && r.Chance(30) {
